@@ -529,6 +529,12 @@ func (e *escaper) escapeTree(c context, node parse.Node, name string, line int) 
 				// t.Tree may already have been rewritten for the text context.
 				src = p
 			}
+			if src == nil {
+				return context{
+					state: stateError,
+					err:   errorf(ErrNoSuchTemplate, node, line, "%q is an incomplete or empty template", name),
+				}, dname
+			}
 			dt.Tree = src.Copy()
 			dt.Tree.Name = dname
 			e.derived[dname] = dt
@@ -541,10 +547,9 @@ func (e *escaper) escapeTree(c context, node parse.Node, name string, line int) 
 		e.ns.pristine[name] = t.Tree.Copy()
 	}
 	out := e.computeOutCtx(c, t)
-	if out.state != stateError {
-		// escapeTemplateBody only recorded an assumption; record the computed context.
-		e.output[dname] = out
-	}
+	// escapeTemplateBody only recorded an assumption; record the computed context, or
+	// the error, so that later callers do not rely on an assumption that did not hold.
+	e.output[dname] = out
 	return out, dname
 }
 
